@@ -49,3 +49,33 @@ prop("C11", level="proof", bounded=True,
      assumptions=["operators on payload values are uninterpreted functions: 'the same operator on the underlying values' is proved for every value type at once",
                   "operators the classes do not define at all (//, %, **, ^, >>, unary, reflected logical) raise TypeError loudly and are outside the contracts"],
      equivalent_mutants=[])
+
+
+prop("C01", level="proof", bounded=True,
+     technique="deductive: representation invariant WF as pre/post of every mutator under contract (pyvc, z3/cvc5); bounded histories as cross-check",
+     text="WF (parallel lists, strictly increasing coordinates, boxed leaves) is proved to be preserved by the insertion path "
+          "(_coord2pos, _create_payload, getPayloadRef, getPositionRef), append, position assignment and clear, for all fibers and arguments; "
+          "rejections (CoordinateError / monotonicity assert) are proved to leave both lists unchanged. 'Every history' follows by induction over the "
+          "mutator contracts. Mutators outside pyvc's reach (updateCoords' re-sort through zip/sorted, updatePayloads with an arbitrary callable, "
+          "populate bodies, extend, fiber <<=) are decided by the bounded part only: every op of a finite universe on every tree of depth 1-2 over "
+          "2-3 coordinates incl. explicit defaults and empty sub-fibers, op pairs, and seeded random histories of length 3 (quick) / 5 (thorough) at depth 2-3.",
+     note="Trusted: pyvc, z3/cvc5, bisect.bisect_left (partition point of a sorted list), the leaf-rank contract of _createDefault (tier B). "
+          "Integer coordinates only in the proof; tuple coordinates and interior ranks in the bounded part.",
+     also=["Fiber._coord2pos", "Fiber._create_payload", "Fiber.getPayloadRef", "Fiber.getPositionRef", "Fiber.append",
+           "Fiber.__setitem__", "Fiber.clear", "Fiber.setSavedPos", "Payload.maybe_box"],
+     trusted_base=["bisect.bisect_left returns the partition point of a sorted list", "Fiber._createDefault leaf-rank contract (bounded, tier B)"])
+
+prop("C03", level="proof", bounded=True,
+     technique="deductive: accessor contracts against the stored lists (pyvc, z3/cvc5); dict-oracle histories as bounded cross-check",
+     text="getPayload (incl. allocate=False and caller default), getPayloadRef, getPosition, getPositionRef, _coord2pos (bisect and the linear "
+          "search from every legal start_pos) and _create_payload are proved against the map view of a leaf-rank fiber: a read returns the stored payload "
+          "object or a fresh default and changes only the saved-position bookkeeping; a reference inserts at exactly the sorted position, returns the "
+          "stored object itself and shifts nothing else; the answers do not depend on start_pos (the linear search is proved to return the bisect "
+          "partition point). In-place operators return self (C11 contracts), which makes the handle's updates visible. Deeper points (recursion through "
+          "interior ranks, default sub-fiber synthesis, Tensor-level delegation, rank-0) are decided by the bounded part: every accessor op on every "
+          "small tree at depth 1-2 and seeded random interleavings at depth 1-3 against a dict oracle with tree+rank-list snapshots around reads.",
+     note="Trusted: pyvc, z3/cvc5, bisect.bisect_left; tier-B contracts of _createDefault/getDefault (ghost default), Metrics.addUse (collection off in the proof). "
+          "A start_pos is legal iff start_pos==0 or coords[start_pos] <= coord (what getPayload asserts).",
+     also=["Fiber._coord2pos", "Fiber._create_payload", "Fiber.getPayload", "Fiber.getPayloadRef", "Fiber.getPosition", "Fiber.getPositionRef",
+           "Fiber.setSavedPos", "Payload.__ilshift__", "Payload.__iadd__", "Payload.__imul__"],
+     trusted_base=["bisect.bisect_left", "Fiber._createDefault / getDefault leaf-rank contracts (tier B)"])
